@@ -12,8 +12,26 @@ from rsocket.streams.stream_from_generator import StreamFromGenerator
 from vlib.sim import RecPub, Rec
 
 
+EXC = None      # set by build_handler: the exception class application code raises
+
+
 class Boom(RuntimeError):
     pass
+
+
+class BoomOS(ConnectionResetError):      # an OSError: must not be mistaken for a lost transport
+    pass
+
+
+class BoomTimeout(TimeoutError):         # what asyncio.wait_for raises (an OSError subclass since 3.11)
+    pass
+
+
+class BoomKey(KeyError):
+    pass
+
+
+KINDS = (Boom, BoomOS, BoomTimeout, BoomKey)
 
 
 def _ok(v):
@@ -66,7 +84,9 @@ def _failing_publisher(how):
     return StreamFromGenerator(gen)
 
 
-def build_handler(adapter, entry, how):
+def build_handler(adapter, entry, how, exc_kind=0):
+    global Boom
+    Boom = KINDS[exc_kind]
     rec = {'delegate_calls': []}
     if adapter == 'plain':
         class H(BaseRequestHandler):
